@@ -128,7 +128,7 @@ Close ==
 \* ------------------------------------------------------------------ readers
 
 NewR == Is("new_reader") /\ Step /\ UNCHANGED wrs
-        /\ rds' = Put(rds, Ev.o, NewReader(l)
+        /\ rds' = Put(rds, Ev.o, [NewReader(l) EXCEPT !.pos = IF Has(Ev, "start") THEN Ev.start ELSE 0]
                                   @@ [peekmax |-> Ev.peek])
 
 LiveR(o) == o \in DOMAIN rds /\ ~rds[o].dead
@@ -214,9 +214,9 @@ Copy ==
            ok == Ev.res = "ok"
            rd2 == RNext(rd, Ev.n)
            D == Delivered(Ev, wr)
-           wr2 == IF ok THEN After(wr, Slice(Src(rd.src), rd.pos, Ev.n), D) ELSE [wr EXCEPT !.dead = TRUE]
+           wr2 == After(wr, Slice(Src(rd.src), rd.pos, IF ok THEN Ev.n ELSE 0), D)
        IN  /\ EOf(rd) = wr.e
-           /\ CopyStep(rd, wr, Ev.n, Ev.res, D, rd2, wr2)
+           /\ CopyStep(rd, wr, Ev.n, Ev.res, IF Has(Ev, "side") THEN Ev.side ELSE "read", D, rd2, wr2)
            /\ RStepOK(Ev, rd2)
            /\ (ok /\ Has(Ev, "wcnt")) => Ev.wcnt = wr2.cnt
            /\ rds' = [rds EXCEPT ![Ev.o] = rd2]
